@@ -429,6 +429,17 @@ def build_configs(tier, seed):
         ctor, cat, kinds = E[elem]
         if MESH_KIND[mesh] not in kinds or not applicable(F[form][1], cat, kind):
             return
+        if not quick and kw.get('free') is None and not kw.get('curved'):
+            # sizing of the thorough tier (measured: no verdict within 10 min with ALL coordinates symbolic): one free vertex
+            heavy_tri = elem in ('TriP3', 'TriP4', 'TriRT2', 'TriCCR', 'TriP2B', 'TriDG2') and (kind != 'cell' or mesh == 'tri3fan' or form in ('field', 'gradfield', 'wh'))
+            heavy_quad = elem in ('Quad2', 'QuadS2', 'QuadP3', 'QuadDG1') and mesh == 'quad2'
+            heavy_tet = elem in ('TetP2', 'TetMini', 'TetCR') and kind != 'cell'
+            if heavy_tri:
+                kw['free'] = [3]
+            elif heavy_quad:
+                kw['free'] = [2]
+            elif heavy_tet:
+                kw['free'] = [4]
         name = '%s/%s/%s/%s' % (mesh, elem, form, kind)
         if kw.get('trial'):
             name += '/trial=%s:%s' % kw['trial']
@@ -536,7 +547,6 @@ def build_configs(tier, seed):
     add('hex1', 'Hex1', 'wn', 'facet', free='none')
     add('wedge1', 'Wedge1', 'nonsym', 'cell', free='none')
     if not quick:
-        add('hex2', 'Hex1', 'wx', 'cell', free=[0])
         add('hex2', 'Hex1', 'ifjump', 'ifacet-0', free='none')
         add('hex1', 'HexS2', 'nonsym', 'cell', free='none')
         add('hex1', 'Hex2', 'nonsym', 'cell', free='none')
